@@ -191,13 +191,13 @@ CHECKS = {
         overlay=dict(inject={"io/zz_verif_export.go": "harness/overlays/io_export.go"}),
         rule="rapid-generated histories of 1-25 operations over two files in the HDF5 stand-in: Create (new / same shape / different shape / with compression), Write of a generated source view (all 8 element types, Go- and C-backed, any layout), WriteSlice of a generated sub-array at a location, Load with Slice nil or per-dimension nil | [start, stop, step] (stop possibly beyond the extent, step 1..4; one load in three hands over the very selection object an earlier load of the history used, as ow-sim does), Exists / Shape / GetDatasets / GetGroups; "
              "model = map path -> (type, shape, values); after every operation the raw bytes of every dataset (decoded independently) and a whole-dataset Load equal the model, Load(sel) has exactly the shape and elements of the in-memory slice start:min(stop,n):step, re-create leaves values unchanged and a different shape is refused, listings equal the model; lock probe at every stand-in call (TryLock must fail; for mutating calls TryRLock must fail); "
-             "exhaustive enumeration of sliceSize / makeHyperslab over n<=12, all start, stop<=n+3, step<=5; concurrent workers each owning a dataset of one shared file (run under the race detector in the thorough tier); a self-check of the stand-in's selection against nested loops. "
+             "exhaustive enumeration of sliceSize / makeHyperslab over n<=12, all start, stop<=n+3, step<=5; concurrent workers each owning a dataset of one shared file (run under the race detector in the thorough tier); a self-check of the stand-in's selection against nested loops; LoadText of fixed-width string datasets placed by the stand-in (NUL-padded, or filling the width without a terminator) returns exactly the strings, and an error for numeric or missing datasets. "
              "Non-trivial = a load with step>1 or clipped stop, or a write whose source view is non-contiguous, or a selection triple with step>1 / clipped stop; distinct = distinct case",
         assumptions=["libhdf5 is not installed: a pure-Go stand-in (/verif/fakehdf5) with the binding's API, type table and raw-transfer rule is the trusted base; agreement with the real libhdf5 ABI (cgo type mapping, chunking/deflate, real error codes) cannot be executed here",
                      "empty selections and compress=true (refused by libhdf5 on a contiguous layout) are a separate class that must only leave everything else intact",
                      "Create ignoring its fillValue and WriteSlice swallowing the library's error are not flagged"],
-        quick=dict(stages=[st(2000, run="TestRoundTripHistories|TestSelectionHelpersExhaustive|TestStandInSelfCheck", timeout=900), st(300, run="TestConcurrentCallers", timeout=900), st(150, race=True, run="TestConcurrentCallers", timeout=900)]),
-        thorough=dict(stages=[st(0, fuzz="FuzzRoundTripHistories", fuzztime="60s", timeout=600), st(70000, shards=12, run="TestRoundTripHistories|TestSelectionHelpersExhaustive|TestStandInSelfCheck", timeout=3500), st(8000, shards=4, race=True, run="TestConcurrentCallers", timeout=3500)]),
+        quick=dict(stages=[st(2000, run="TestRoundTripHistories|TestSelectionHelpersExhaustive|TestStandInSelfCheck|TestLoadText", timeout=900), st(300, run="TestConcurrentCallers", timeout=900), st(150, race=True, run="TestConcurrentCallers", timeout=900)]),
+        thorough=dict(stages=[st(0, fuzz="FuzzRoundTripHistories", fuzztime="60s", timeout=600), st(70000, shards=12, run="TestRoundTripHistories|TestSelectionHelpersExhaustive|TestStandInSelfCheck|TestLoadText", timeout=3500), st(8000, shards=4, race=True, run="TestConcurrentCallers", timeout=3500)]),
     ),
     "C07": dict(
         require={'several-links-into-one-input': 0.03, 'empty-batch': 0.1, 'table-parameter-model:generation-without-the-longest-table': 0.03, '__nontrivial__': 0.15},
